@@ -123,10 +123,11 @@ type Cmd struct {
 	Upd       Update            `json:"upd,omitempty"`
 	Cond      *Expr             `json:"cond,omitempty"`
 	RetOnFail bool              `json:"ret_on_fail,omitempty"`
-	RetVal    string            `json:"ret_val,omitempty"`  // ReturnValues other than the default of the harness (the returned attributes are then not compared)
-	NeedN     []string          `json:"need_n,omitempty"`   // the condition compares these attributes with each other: executed only while the target item holds numbers under all of them
-	NeedHas   map[string]string `json:"need_has,omitempty"` // executed only while the target item holds these attributes with these types ("L:S" = a list whose first element is a string)
-	Proj      []string          `json:"proj,omitempty"`     // ProjectionExpression of a paginated walk
+	RetVal    string            `json:"ret_val,omitempty"`    // ReturnValues other than the default of the harness (the returned attributes are then not compared)
+	NeedN     []string          `json:"need_n,omitempty"`     // the condition compares these attributes with each other: executed only while the target item holds numbers under all of them
+	NeedHas   map[string]string `json:"need_has,omitempty"`   // executed only while the target item holds these attributes with these types ("L:S" = a list whose first element is a string)
+	Proj      []string          `json:"proj,omitempty"`       // ProjectionExpression of a paginated walk
+	ProjNames bool              `json:"proj_names,omitempty"` // the projection names its attributes through #placeholders
 
 	Index    string `json:"index,omitempty"`
 	HashAttr string `json:"hash_attr,omitempty"` // Query: partition attribute of the addressed table/index
